@@ -54,7 +54,7 @@ def quick_instance_corpus(seed):
             out.append(s)
         elif "randcfg" in pats:
             out.append(s)
-        elif pats & {"h_neg_later", "h_lo_start", "g_hi", "rand"}:
+        elif pats & {"h_neg_later", "h_lo_start", "g_hi", "rand", "h_far"}:
             if "ALL_TABLE" in pats or "ALL_AUTO" in pats or "rand" in pats:
                 out.append(s)
     return out
